@@ -2,7 +2,7 @@
 """import the sub-agents' seeded changes from their scratch worktrees into /verif/seeded/<id>/"""
 import glob, json, os, re, shutil, subprocess, sys
 ROOT = os.path.dirname(os.path.dirname(os.path.abspath(__file__)))
-for wt in sorted(glob.glob('/tmp/wt_C*')):
+for wt in sorted(glob.glob('/tmp/wt_C*') + glob.glob('/tmp/wu_C*')):
     prop = os.path.basename(wt)[3:]
     for d in sorted(glob.glob(os.path.join(wt, '_seeded', '*'))):
         if not os.path.isdir(d):
